@@ -11,6 +11,7 @@ import (
 	"sync"
 	"time"
 
+	"google.golang.org/grpc/codes"
 	"google.golang.org/grpc/status"
 	"google.golang.org/protobuf/proto"
 	"google.golang.org/protobuf/types/known/fieldmaskpb"
@@ -232,7 +233,23 @@ func (c *coreRun) wopts(um, rm, b, a, e, flags string) []resource.WriteOption {
 	if f := parseCb(a); f != nil {
 		o = append(o, resource.InterceptAfter(f))
 	}
-	if e != "-" {
+	if strings.HasPrefix(e, "chk:") {
+		// named WithExpectedCheck shared with the Lean driver: reject when field f of the old message (zeros when absent) is n
+		p := strings.Split(e, ":")
+		fi := int(p[1][0] - 'a')
+		n, _ := strconv.Atoi(p[2])
+		code := map[string]codes.Code{"FP": codes.FailedPrecondition, "IA": codes.InvalidArgument}[p[3]]
+		o = append(o, resource.WithExpectedCheck(func(old proto.Message) error {
+			v := [4]int{}
+			if !isNilMsg(old) {
+				v = msgVals(old)
+			}
+			if v[fi] == n {
+				return status.Error(code, "named check")
+			}
+			return nil
+		}))
+	} else if e != "-" {
 		o = append(o, resource.WithExpectedValue(mkMsg(parseVals(e))))
 	}
 	if strings.Contains(flags, "c") {
@@ -639,6 +656,9 @@ func genCoreSeq(r *rand.Rand, n int) coreSeq {
 	nsrc, nv, nc := 0, 0, 0
 	known := []string{} // values seen, used for expected values
 	exp := func() string {
+		if r.Intn(8) == 0 {
+			return fmt.Sprintf("chk:%c:%d:%s", rune('a'+r.Intn(4)), r.Intn(3), []string{"FP", "IA"}[r.Intn(2)])
+		}
 		if r.Intn(5) == 0 {
 			if len(known) > 0 && r.Intn(3) != 0 {
 				return known[r.Intn(len(known))]
@@ -697,7 +717,7 @@ func genCoreSeq(r *rand.Rand, n int) coreSeq {
 func runCore(f lib.Flags, res *lib.Result) {
 	tie := res.Tie("core-heap", "K1",
 		"random op sequences (alloc/mutate caller messages; Value Set/Get/Pull/close; Collection Update(Add)/Delete/Get/List/Pull/close; "+
-			"update masks, read masks, writable fields, named interceptors, expected values, 0-3 open streams with backpressure) executed on "+
+			"update masks, read masks, reset masks, writable fields, named interceptors, expected values, named expected checks, id interceptor, 0-3 open streams with backpressure) executed on "+
 			"resource.Value/Collection and on the Lean heap model; compared after EVERY op: the answer (results + events per stream) and the current "+
 			"contents of every published reference and of every caller-owned message; non-trivial = at least 3 messages crossed the boundary; distinct = distinct op sequences")
 	mon := res.Monitor("snapshot-core",
